@@ -11,6 +11,15 @@ Case lines
      code 1 schedule(now+a, tag b)  2 un_schedule(tag b)  3 un_schedule()  4 pop_tag(b)  5 reset()
           6 emit a + sum(valid inputs)  7 graph.schedule_node(self, now+a)  8 throw
   Node lines (2/4/5) appear in node order, the index is the position (the order IS the ranking).
+Collection-shaped feedback through the wiring layer (ORACLE-ONLY cases: no Coq mirror of collection deltas;
+`agree` accepts them, the oracle decides):
+  7 kind passive structural   kind 1 TSS<Int> delay line, 2 TSD<Int,TS<Int>> delay line (scripted source -> feedback, probes
+                              on both sides), 3 TSD loop grow(x, [passive](fb())) whose feedback input has activity
+                              Structural (structural=1) or Active (0); built with stdlib::feedback<> (the real
+                              make_feedback_*_node over those schemas, the real ranking, the Passive argument tag)
+  8 t op key value            kind 1: op 1 add key, 2 remove key; kind 2: op 1 set key value, 2 erase key; kind 3: op 1 x.set(value)
+  observations: 30 id t na a* nr r* nm m* (TSS tick: added, removed, members; id 1 = written side, 2 = feedback side),
+                31 id t nmod (k v)* nrem k* nall (k v)* (TSD tick), 32 t (grow evaluated), 33 t v (x ticked), 10 t, 19 code
 Observation lines
   10 t                     root cycle at t
   11 i t                   node i evaluated by the graph at t
@@ -127,7 +136,80 @@ def _compute(b, rng, ins, vmode=None, emit=True):
     return i
 
 
+def _times(rng, start, n):
+    t = start + rng.choice([0, 0, 1, 2])
+    out = []
+    for _ in range(n):
+        out.append(t)
+        t += rng.choice([1, 1, 1, 2, 3, 5])
+    return out
+
+
+def gen_wired(rng, tier):
+    start = rng.randint(1, 3)
+    kind = rng.choice([1, 1, 2, 3, 3])
+    n = rng.randint(2, 6 if tier == "quick" else 10)
+    times = _times(rng, start, n)
+    lines = []
+    if kind == 1:
+        members = set()
+        for t in times:
+            r = rng.random()
+            if members and r < 0.4:          # a cycle that only removes
+                ops = [(2, k) for k in rng.sample(sorted(members), rng.randint(1, min(2, len(members))))]
+            elif r < 0.7:                    # only adds
+                ops = [(1, k) for k in rng.sample(range(1, 8), rng.randint(1, 2))]
+            elif r < 0.9:                    # mixed
+                ops = [(1, k) for k in rng.sample(range(1, 8), 1)]
+                ops += [(2, k) for k in rng.sample(sorted(members), 1) if k != ops[0][1]] if members else []
+            else:                            # no-ops: add a present / remove an absent element
+                ops = [(1, rng.choice(sorted(members)))] if members and rng.random() < 0.5 else [(2, 9)]
+            for op, k in ops:
+                lines.append([8, t, op, k, 0])
+                (members.add if op == 1 else members.discard)(k)
+        case = [[1, start, times[-1] + rng.randint(1, 4)], [7, 1, 0, 0]] + lines
+    elif kind == 2:
+        keys = set()
+        for t in times:
+            r = rng.random()
+            if keys and r < 0.4:             # erase only
+                ops = [(2, k, 0) for k in rng.sample(sorted(keys), rng.randint(1, min(2, len(keys))))]
+            elif r < 0.8:
+                ops = [(1, k, rng.randint(-5, 50)) for k in rng.sample(range(1, 7), rng.randint(1, 2))]
+            else:
+                ops = [(1, rng.randint(1, 6), rng.randint(-5, 50))]
+                ops += [(2, k, 0) for k in rng.sample(sorted(keys), 1) if k != ops[0][1]] if keys else []
+            for op, k, v in ops:
+                lines.append([8, t, op, k, v])
+                (keys.add if op == 1 else keys.discard)(k)
+        case = [[1, start, times[-1] + rng.randint(1, 4)], [7, 2, 0, 0]] + lines
+    else:
+        passive = 1 if rng.random() < 0.7 else 0
+        structural = 1 if rng.random() < 0.7 else 0
+        for t in times:
+            lines.append([8, t, 1, 0, rng.randint(1, 40)])
+        end = times[-1] + rng.randint(2, 12)
+        if not passive:
+            end = min(end, start + 14)
+        case = [[1, start, end], [7, 3, passive, structural]] + lines
+    return case
+
+
+def is_wired(case):
+    return any(l and l[0] == 7 for l in case)
+
+
+def agree(case, impl_out, model_out):
+    """Collection-shaped cases are oracle-only (no Coq mirror of TSS/TSD deltas): accept any driver output that
+    is not a crash; the oracle decides.  Flat TS<int> cases: exact equality with the model."""
+    if is_wired(case):
+        return isinstance(impl_out, list)
+    return isinstance(impl_out, list) and isinstance(model_out, list) and impl_out == model_out
+
+
 def gen(rng, tier, prop):
+    if rng.random() < 0.3:
+        return gen_wired(rng, tier)
     b = _B(rng)
     start = rng.randint(1, 3)
     span = rng.randint(5, 16 if tier == "quick" else 30)
@@ -305,6 +387,14 @@ def _reindex(case, order):
     return out
 
 
+def wired_regressions():
+    """The two shapes of the seeded changes, as fixed cases."""
+    a = [[1, 1, 31], [7, 1, 0, 0], [8, 1, 1, 1, 0], [8, 1, 1, 2, 0], [8, 2, 1, 3, 0], [8, 3, 2, 2, 0], [8, 4, 1, 4, 0], [8, 4, 2, 3, 0],
+         [8, 7, 2, 1, 0], [8, 8, 2, 4, 0], [8, 10, 1, 5, 0]]
+    b = [[1, 1, 41], [7, 3, 1, 1], [8, 1, 1, 0, 10], [8, 4, 1, 0, 13], [8, 5, 1, 0, 14]]
+    return [a, b]
+
+
 def enumerate_cases(prop):
     """Exhaustive small space: one self loop, every write pattern of length <= 3 with gaps in {1,2,3},
     reader active/passive, with/without initial value, two sink/recorder orders."""
@@ -330,7 +420,7 @@ def enumerate_cases(prop):
                         b.sink(acc, s)
                         b.recorder([s])
                         out.append(b.case(1, 1 + first + sum(p) + 4))
-    return out
+    return out + wired_regressions()
 
 
 # ---------------------------------------------------------------- helpers
@@ -416,7 +506,89 @@ def streams(case, out):
     return {i: sorted(d.items()) for i, d in w.items()}
 
 
+def _wired_parse(case, out):
+    start, end = 1, 10
+    kind = passive = structural = 0
+    for l in case:
+        if l[0] == 1:
+            start, end = l[1], l[2]
+        elif l[0] == 7:
+            kind, passive, structural = l[1], (l[2] if len(l) > 2 else 0), (l[3] if len(l) > 3 else 1)
+    W = [(l[2], tuple(l[3:])) for l in out if l[0] in (30, 31) and l[1] == 1]
+    R = [(l[2], tuple(l[3:])) for l in out if l[0] in (30, 31) and l[1] == 2]
+    X = [l[1] for l in out if l[0] == 33]
+    G = [l[1] for l in out if l[0] == 32]
+    cycles = [l[1] for l in out if l[0] == 10]
+    return start, end, kind, passive, structural, W, R, X, G, cycles
+
+
+def _removal_only(payload):
+    # TSS: na a* nr r* ...  /  TSD: nmod (k v)* nrem k* ...
+    return payload[0] == 0 and len(payload) > 1 and payload[1] > 0
+
+
+def stats_wired(case, out):
+    ok = isinstance(out, list)
+    if not ok:
+        return {"wired_cases": 1, "error": 1}
+    start, end, kind, passive, structural, W, R, X, G, cycles = _wired_parse(case, out)
+    return {"wired_cases": 1, "wired_tss": int(kind == 1), "wired_tsd": int(kind == 2), "wired_tsd_loop": int(kind == 3),
+            "wired_passive_structural": int(kind == 3 and passive and structural), "coll_writes": len(W), "coll_deliveries": len(R),
+            "removal_only_deltas": sum(1 for _t, p in W if _removal_only(p)), "cycles": len(cycles),
+            "error": int(any(l[0] == 19 for l in out))}
+
+
+def oracle_wired(case, out):
+    """C08 on collection shapes, from the two recorded sides only: the feedback side's ticks (time, delta, value) are
+    exactly the written side's ticks one smallest step later (no loss - removal-only deltas included - no duplicate,
+    no reordering); a loop read passively through a Structural input quiesces."""
+    if not isinstance(out, list):
+        return [("crash", str(out))]
+    fails = []
+    if any(l[0] == 19 for l in out):
+        return [("crash", "exception escaped the wired run")]
+    start, end, kind, passive, structural, W, R, X, G, cycles = _wired_parse(case, out)
+    # an EMPTY delta (a tick that changed nothing, e.g. add of a present element) is by design not replayed
+    # on an already valid collection (ts_delta.cpp delta_has_effect_tss/_tsd: "dedup"); on a still invalid
+    # feedback output it is the validating tick
+    exp = []
+    for (t, p) in W:
+        if t + 1 >= end:
+            continue
+        empty = p[0] == 0 and len(p) > 1 and p[1] == 0
+        if empty and exp:
+            continue
+        exp.append((t + 1, p))
+    if R != exp:
+        missing = [e for e in exp if e not in R]
+        extra = [e for e in R if e not in exp]
+        et = {t for t, _ in exp}
+        rt = {t for t, _ in R}
+        if et - rt:
+            kindf = "coll_lost"
+        elif rt - et:
+            kindf = "coll_spurious"
+        else:
+            kindf = "coll_mismatch"
+        fails.append((kindf, "collection feedback (kind %d): written %s; expected deliveries %s; observed %s; missing %s; extra %s"
+                      % (kind, W[:8], exp[:8], R[:8], missing[:4], extra[:4])))
+    for (t, _p) in exp:
+        if t not in cycles:
+            fails.append(("fb_no_cycle", "no engine cycle at %d for a collection delivery" % t))
+    if kind == 3 and passive:
+        if G != X:
+            fails.append(("passive_not_honoured", "reader with a passive %s feedback input evaluated at %s, its live input ticked at %s"
+                          % ("Structural" if structural else "Active", G[:12], X)))
+        allowed = set(X) | {t + 1 for t in X} | {start}      # the scripted source is schedule_on_start
+        bad = [t for t in cycles if t not in allowed]
+        if bad:
+            fails.append(("no_quiesce", "passive collection loop: cycles %s explained neither by a live tick nor by a due delivery" % bad[:12]))
+    return fails
+
+
 def stats(case, out):
+    if is_wired(case):
+        return stats_wired(case, out)
     start, end, nodes, scripts = parse_case(case)
     ok = isinstance(out, list)
     st = streams(case, out) if ok else {}
@@ -440,6 +612,8 @@ def stats(case, out):
 def nontrivial(case, out):
     if not isinstance(out, list):
         return False
+    if is_wired(case):
+        return sum(1 for l in out if l[0] in (30, 31) and l[1] == 2) >= 2
     start, end, nodes, scripts = parse_case(case)
     st = streams(case, out)
     return any(len(st.get(s, [])) >= 2 for (_k, _p, s, _c) in pairs_of(nodes))
@@ -451,6 +625,8 @@ def oracle(prop, case, out):
        - shift: the source's tick stream == [(start, init)] ++ [(t+1, v) for producer writes (t, v), t+1 < end]
        - reader_view: every reader of a feedback sees exactly that stream's state (never a value of its own cycle)
        - quiescence: cycles that no external trigger and no pending delivery explains do not exist"""
+    if is_wired(case):
+        return oracle_wired(case, out)
     if not isinstance(out, list):
         return [("crash", str(out))]
     fails = []
@@ -564,11 +740,19 @@ def oracle(prop, case, out):
 
 PROP_KINDS = {
     "C08": {"fb_lost", "fb_dup", "fb_spurious", "fb_delay", "fb_reorder", "fb_no_cycle", "fb_same_cycle", "reader_view",
-            "passive_not_honoured", "no_quiesce"},
+            "passive_not_honoured", "no_quiesce", "coll_lost", "coll_spurious", "coll_mismatch"},
 }
 
 
 def shrink(case):
+    if is_wired(case):
+        steps = [i for i, l in enumerate(case) if l[0] == 8]
+        for i in steps:
+            yield case[:i] + case[i + 1:]
+        for idx, l in enumerate(case):
+            if l[0] == 1 and l[2] - l[1] > 3:
+                yield case[:idx] + [[1, l[1], l[2] - 1]] + case[idx + 1:]
+        return
     heads = [l for l in case if l[0] != 3]
     ops = [l for l in case if l[0] == 3]
     for i in range(len(ops)):
